@@ -20,6 +20,8 @@ type HevcCache struct {
 	vps      *rtp.Packet // 视频参数集包
 	sps      *rtp.Packet // 序列参数集包
 	pps      *rtp.Packet // 图像参数集包
+	hasKey   bool        // 是否已见过关键帧
+	keyTs    uint32      // 最近关键帧(图像)的 RTP 时间戳
 }
 
 // NewHevcCache 创建 HEVC 缓存
@@ -43,30 +45,37 @@ func (cache *HevcCache) CachePack(pack Pack) bool {
 	cache.l.Lock()
 	defer cache.l.Unlock()
 
-	if vps { // 视频参数
+	// 一个聚合包可能同时携带 VPS、SPS、PPS 和关键帧片，各自都要记录
+	if vps {
 		cache.vps = rtppack
-		return false
 	}
-
-	if sps { // 序列头参数
+	if sps {
 		cache.sps = rtppack
+	}
+	if pps {
+		cache.pps = rtppack
+	}
+	if (vps || sps || pps) && !islice { // 纯参数集包
 		return false
 	}
 
-	if pps { // 图像参数
-		cache.pps = rtppack
-		return false
+	// 同一关键帧图像可能有多个片(RTP 时间戳相同)，只有第一个片才是关键帧的起点
+	keyframe := false
+	if islice {
+		keyframe = !cache.hasKey || cache.keyTs != rtppack.Timestamp
+		cache.hasKey = true
+		cache.keyTs = rtppack.Timestamp
 	}
 
 	if cache.cacheGop { // 需要缓存 GOP
-		if islice { // 关键帧
+		if keyframe { // 关键帧
 			cache.gop.Reset()
 			cache.gop.Push(rtppack)
 		} else if cache.gop.Len() > 0 {
 			cache.gop.Push(rtppack)
 		}
 	}
-	return islice
+	return keyframe
 }
 
 // Reset 重置HevcCache缓存
@@ -77,6 +86,7 @@ func (cache *HevcCache) Reset() {
 	cache.vps = nil
 	cache.sps = nil
 	cache.pps = nil
+	cache.hasKey = false
 	cache.gop.Reset()
 }
 
@@ -86,25 +96,29 @@ func (cache *HevcCache) PushTo(q *queue.SyncQueue) int {
 	cache.l.RLock()
 	defer cache.l.RUnlock()
 
-	// 写参数包
-	if cache.vps != nil {
+	var packs []queue.Elem
+	if cache.cacheGop {
+		packs = cache.gop.Elems()
+	}
+
+	// 写参数包(同一个包只写一次；已在 GOP 中的包随 GOP 发送)
+	if cache.vps != nil && !containsPack(packs, cache.vps) {
 		q.Queue().Push(cache.vps)
 		bytes += cache.vps.Size()
 	}
 
-	if cache.sps != nil {
+	if cache.sps != nil && cache.sps != cache.vps && !containsPack(packs, cache.sps) {
 		q.Queue().Push(cache.sps)
 		bytes += cache.sps.Size()
 	}
 
-	if cache.pps != nil {
+	if cache.pps != nil && cache.pps != cache.vps && cache.pps != cache.sps && !containsPack(packs, cache.pps) {
 		q.Queue().Push(cache.pps)
 		bytes += cache.pps.Size()
 	}
 
 	// 如果必要，写 GopCache
 	if cache.cacheGop {
-		packs := cache.gop.Elems()
 		q.Queue().PushN(packs) // 启动阶段调用，无需加锁
 		for _, p := range packs {
 			bytes += p.(Pack).Size()
